@@ -20,14 +20,14 @@ from mc.ref import fmt as ref
 
 PROPERTY = "C18"
 LEVEL = "exploration"
-RULE = ("cases = (1) every sequence of 1..K tokens (K=4 quick, 5 thorough) over 10 column tokens x {no date format, %Y-%m-%d, '%d %b %y'} x "
+RULE = ("cases = (1) every sequence of 1..K tokens (K=4 quick, 5 thorough) over 11 column tokens (incl. a capture named _ref) x {no date format, %Y-%m-%d, '%d %b %y'} x "
         "{no template, {a}, {a} {b}, {c}} x 4 spellings (plain, blanks around commas, upper-case names, {_}<->{*}); (2) every header row of "
         "1..K cells (K=4 quick, 5 thorough - the 5-cell rows over the first 12 header texts) over 18 header texts (plus the 5-column family: 3 mapped columns and every ordered pair of further headers in 3 arrangements) x 5 date styles in the data rows (all 5 for rows narrower than K, the default style for K-cell rows) fed to the real `tally inspect`. non-trivial = arrangement that the reference "
         "accepts, or rejects for a reason other than a missing required field; header rows for which inspect prints a suggestion; all distinct by construction")
 ASSUMPTIONS = ["arrangements with a {description} column AND a template whose columns are all captured are not judged (the property does not say)",
                "date formats containing a comma are outside the alphabet", "inspect is run in-process with stdout captured"]
 
-TOKENS = ["date", "description", "amount", "-amount", "+amount", "location", "a", "b", "_", "*"]
+TOKENS = ["date", "description", "amount", "-amount", "+amount", "location", "a", "b", "_", "*", "_ref"]
 DATEFMTS = [None, "%Y-%m-%d", "%d %b %y"]
 TEMPLATES = [None, "{a}", "{a} {b}", "{c}"]
 HEADERS = ["Date", "Transaction Date", "Posting Date", "Payment Date", "Description", "Merchant Name", "Payee", "Memo", "Amount", "Debit",
